@@ -40,7 +40,12 @@ func (c07) Rule() string {
 		"`yq u` vs `yq .` (both in-process, both re-read by yaml.v3; real binary `yq u file` must print the in-process text for 1 case in 4): per-path table equal outside T " +
 		"(after index re-mapping), linearised comment stream equal outside T, document count and '---' lines equal. T = target subtree (replace/update), the entry (delete), " +
 		"the new element (append / key creation); a parent that was or becomes an empty collection may change block/flow. Non-trivial = T non-empty and the documents carry " +
-		">= 1 comment or non-plain style outside T; distinct by hash of (shape, presentation plan, update kind)."
+		">= 1 comment or non-plain style outside T; distinct by hash of (shape, presentation plan, update kind). An update that only creates nodes (append, key creation, in a non-empty collection) " +
+		"may not hand a comment of a node outside T over to the created node (not asserted at the end of the document and next to a value without text). " +
+		"Comment-ownership family (1 case in 10): hand-maintained looking documents whose block sequences (top level, below maps, inside sequences; of scalars / maps / sequences; flow) carry head, line and " +
+		"trailing (= foot of the last element) comments x elements added in 15 spellings (+= x, += [..], |= . + [..], = p + [..], = (p | . + [..]), += other sequence of the document, prepend, two appends, " +
+		"two targets, with(), *+ merge, [.[], x], chains): the yaml.v3 per-path table (head / line / foot comment of key and value, kind, value, tag, style, anchor, position) of `yq .` and `yq u` is equal on every " +
+		"node that is not an added element, the sequence grew by exactly the added elements, document comments equal, every line of `yq .` still there in order."
 }
 func (c07) Assumptions() []string {
 	return []string{
@@ -333,6 +338,7 @@ func c07GenUpdate(r *rand.Rand, st *gen.YStream) (u c07Upd, ok bool) {
 type c07Cmp struct {
 	T     []c07Target
 	Shape [][]any
+	zero  map[string]bool // `yq .`: paths whose value is an empty plain scalar (no text of its own)
 }
 
 // remap converts a path of the update side into base coordinates (sequence indices after a delete).
@@ -374,6 +380,18 @@ func (c *c07Cmp) inT(p []any, key bool, side string) bool {
 	return false
 }
 
+// onlyCreates: T consists of created nodes only (append, key creation) in collections that were not empty.
+func (c *c07Cmp) onlyCreates() bool {
+	for _, t := range c.T {
+		if t.P != nil || t.New == nil {
+			return false
+		}
+	}
+	// (a collection that was empty changes between flow and block: where the reader hangs the comments around it
+	// changes with it)
+	return len(c.T) > 0 && len(c.Shape) == 0
+}
+
 func (c *c07Cmp) shape(p []any) bool {
 	for _, s := range c.Shape {
 		if len(s) == len(p) && c07IsPrefix(s, p) {
@@ -412,6 +430,7 @@ type c07Gap struct {
 	all      []string
 	mustKeep []string
 	touched  bool
+	weak     bool // a kept comment hangs on an entry whose value has no text: which neighbour owns it is the reader's guess
 }
 
 func (c *c07Cmp) gaps(s []ref.YTok, side string) []c07Gap {
@@ -431,6 +450,9 @@ func (c *c07Cmp) gaps(s []ref.YTok, side string) []c07Gap {
 				// its leading comment lines and may guess differently): not asserted
 			case t.Doc || !c.inT(p, t.Key, side):
 				cur.mustKeep = append(cur.mustKeep, t.Text)
+				if !t.Doc && c.zero[ref.YPath(p)] {
+					cur.weak = true
+				}
 			default:
 				cur.touched = true
 			}
@@ -616,6 +638,12 @@ func (c *c07Cmp) compare(d int, b, x ref.YDoc) (fails []c07Fail) {
 		}
 	}
 	// ---- stream
+	c.zero = map[string]bool{}
+	for _, r := range b.Rows {
+		if !r.IsKey && r.Kind == "scalar" && r.Value == "" && r.Style == "plain" {
+			c.zero[ref.YPath(r.P)] = true
+		}
+	}
 	gb, gu := c.gaps(b.Stream, "b"), c.gaps(x.Stream, "u")
 	if len(gb) != len(gu) {
 		if len(fails) == 0 {
@@ -630,11 +658,18 @@ func (c *c07Cmp) compare(d int, b, x ref.YDoc) (fails []c07Fail) {
 			}
 			return fails
 		}
-		if c07GapOK(gb[k], gu[k]) {
+		// an update that only creates nodes (append, key creation): a comment that hangs on a node outside T in
+		// `yq .` must still hang on a node outside T afterwards (it may not be handed to the new node)
+		// (not asserted at the very end of the document, where the comment may as well be the document's, and next to
+		// a value without text)
+		handedOver := c.onlyCreates() && gb[k].before != "$" && !gb[k].weak && !c07Subseq(gb[k].mustKeep, gu[k].mustKeep)
+		if c07GapOK(gb[k], gu[k]) && !handedOver {
 			continue
 		}
 		var msg string
 		switch {
+		case handedOver && c07GapOK(gb[k], gu[k]):
+			msg = fmt.Sprintf("doc %d: comments before %s that belong to nodes outside T: `yq .` %q, after the update only %q belong to nodes outside T (the others hang on the nodes the update created)", d, gb[k].before, gb[k].mustKeep, gu[k].mustKeep)
 		case !gb[k].touched && !gu[k].touched:
 			msg = fmt.Sprintf("doc %d: comments before %s (gap not touched by T): `yq .` %q, after the update %q", d, gb[k].before, gb[k].all, gu[k].all)
 		case !c07Subseq(gb[k].mustKeep, gu[k].all):
@@ -738,6 +773,9 @@ func (p c07) Run(w *mon.Worker, idx int) mon.Result {
 	r := w.Rand(idx)
 	if idx%5 == 4 {
 		return c07LineCase(w, r)
+	}
+	if idx%10 == 7 {
+		return c07FootCase(w, r)
 	}
 	o := gen.YDefault()
 	o.NoTaggedEmpty = true // (comment ownership around empty tagged scalars is yaml.v3's own business: C05 has them)
